@@ -197,6 +197,13 @@ pub trait Prop: Sync {
     fn asan(&self) -> bool {
         false
     }
+    /// Replay a recorded violation directly from the replay file's `detail` (e.g. one recorded
+    /// schedule on one program), WITHOUT the explorer. `None` = not supported by this property
+    /// (the generic replay re-runs the recorded unit/case instead). `Some(Ok(obs))` = no violation,
+    /// `Some(Err(what))` = the violation reproduces; `obs`/`what` must be deterministic.
+    fn replay_detail(&self, _detail: &J) -> Option<Result<String, String>> {
+        None
+    }
     /// Extra work done once in the parent before the units run (e.g. build a generated crate).
     fn prepare(&self, _tier: Tier) -> Result<(), String> {
         Ok(())
@@ -723,6 +730,25 @@ pub fn replay(prop: &dyn Prop, path: &str) -> i32 {
         }
     };
     let j: J = serde_json::from_str(&s).unwrap();
+    // direct replay of the recorded schedule / history, twice, without the explorer
+    if let Some(r1) = prop.replay_detail(&j["detail"]) {
+        let r2 = prop.replay_detail(&j["detail"]).unwrap();
+        if r1 != r2 {
+            eprintln!("MACHINERY-ERROR replay is not deterministic: {r1:?} vs {r2:?}");
+            return 2;
+        }
+        return match r1 {
+            Ok(o) => {
+                println!("replay (direct): no violation: {o}");
+                0
+            }
+            Err(w) => {
+                println!("replay (direct): {w}");
+                println!("VIOLATION property={} replay={}", prop.id(), path);
+                1
+            }
+        };
+    }
     let tier = Tier::parse(j["tier"].as_str().unwrap_or("quick")).unwrap();
     let unit = j["unit"].as_u64().unwrap() as usize;
     let case = j["case"].as_u64().unwrap();
